@@ -1,5 +1,6 @@
 import Pycoin.Proofs.ScriptNum
 import Pycoin.Proofs.ScriptPush
+import Pycoin.Proofs.ScriptPushUnique
 import Pycoin.Proofs.ScriptText
 /-!
 C12 — Script integers, data pushes and script text encode canonically and losslessly.
@@ -392,6 +393,14 @@ theorem C12_push_shortest (d rest : Bytes) (h : d.length < 2 ^ 32) :
     ∃ opc payload, Spec.getScriptOp (Spec.minimalPush d ++ rest) = some (opc, payload, rest) ∧
       Spec.pushValue opc payload = some d ∧ (opc ≤ 0x4e → Spec.checkMinimalPush opc payload = true) :=
   ⟨compilePushData_eq d h, getScriptOp_minimalPush d rest h⟩
+
+/-- **C12.push_unique** — "exactly as the rule demands": any single instruction that Core reads as a push of `d`
+(payload of an opcode ≤ `OP_PUSHDATA4`, or the number pushed by `OP_1NEGATE`/`OP_1..OP_16`) and that
+`CheckMinimalPush` accepts is, byte for byte, `Spec.minimalPush d` — the bytes `compile_push_data d` emits. -/
+theorem C12_push_unique (bs d rest : Bytes) (opc : Nat) (payload : Bytes)
+    (hg : Spec.getScriptOp bs = some (opc, payload, rest)) (hv : Spec.pushValue opc payload = some d)
+    (hm : opc ≤ 0x4e → Spec.checkMinimalPush opc payload = true) :
+    bs = Spec.minimalPush d ++ rest := minimalPush_unique bs d rest opc payload hg hv hm
 
 /-- the other side of the 2^32 bound: `struct.pack("<L", …)` raises `struct.error` -/
 theorem C12_push_overflow (d : Bytes) (h : 2 ^ 32 ≤ d.length) : compilePushData d = .error .structError :=
